@@ -468,7 +468,7 @@ pub fn cases(tier: Tier) -> Vec<Case> {
     }
     // entries whose square underflows (2^-600) or overflows (2^600): they are non-zero all the same
     let (tiny, huge) = (2f64.powi(-600), 2f64.powi(600));
-    for e in [tiny, -tiny, huge] {
+    for e in [tiny, -tiny, huge, f64::MIN_POSITIVE, -f64::MIN_POSITIVE] {
         for (mat, cols) in [
             (vec![vec![e]], 1usize),
             (vec![vec![1.0, 0.0, e]], 3),
